@@ -185,6 +185,7 @@ def run(R):
                       "expiry and the incremental result loses it while reasoning from scratch still derives it")
     import c06
     c06.r9(c06.Remap(R, {"C06-R9": "C12-R12"}))
+    r13(R, inc)
     # ---- R2
     impls = [b for b in prog.bodies.values() if b.self_adt == "shared::provenance::ExpirationProvenance" and b.r.get("impl_trait", "").endswith("Provenance")]
     bym = {b.name: b for b in impls}
@@ -757,3 +758,35 @@ def r11(R, inc):
         ok = cmp_time and not member
         R.ob("C12-R11", "carry-filter:%s" % ("expiry" if ok else "/".join(member) or "other"), "a filter on the carried-over facts tests the expiry only (calls in the predicate: %s)" % calls, ok,
              where=x.where(c.ln), detail=None if ok else "this filter looks something up (%s): facts derived into that component are not `listed` anywhere and are dropped although alive" % member)
+
+
+def r13(R, inc):
+    """seeding the expiry tags never lowers a carried expiry"""
+    from lib import pipeline as P
+    prog = R.prog
+    R.rule("C12-R13", "a carried expiry is not overwritten by a smaller one: the loop of incremental_sds_plus that seeds the tag store with `set_tag` (which "
+                      "overwrites) takes base facts only from the renewal-filtered collection (`expiry_old < expiry_new`), after the carried-over ones - "
+                      "or it merges with the maximum. A fact that is streamed in a window *and* derived by a rule with longer-lived support carries the "
+                      "later expiry; re-seeding it from all alive base facts puts the window's own (earlier) expiry back, the support is not in the "
+                      "delta, and the fact disappears while reasoning from scratch still derives it")
+    if inc is None:
+        return
+    sets = [c for c in inc.calls() if c.name() == "set_tag" and inc.loops_containing(c.bb)]
+    if not R.ob("C12-R13", "seeds", "incremental_sds_plus seeds the tag store in a loop (found %d set_tag)" % len(sets), len(sets) >= 1, where=inc.where()):
+        return
+    for c in sets:
+        drv = P.loop_driver(inc, c.bb)
+        if drv is None or drv[2] is None:
+            R.ob("C12-R13", "driver", "the seeding loop iterates a recognisable source", False, where=inc.where(c.ln))
+            continue
+        names, roots = P.flat(drv[2])
+        bad = []
+        for r in roots:
+            if r.get("k") != "root" or r.get("local") is None:
+                continue
+            n2, r2 = P.flat(P.tree(inc, {"k": "copy", "pl": {"l": r["local"], "p": [], "t": ""}}, stop_named=False))
+            is_base = "translate_sds_to_datalog" in n2
+            if is_base and "filter" not in n2 and "retain" not in n2:
+                bad.append(r.get("name") or r["local"])
+        R.ob("C12-R13", "renewed-only", "the base facts the seeding loop writes with set_tag passed the renewal filter (unfiltered sources: %s)" % bad, not bad, where=inc.where(c.ln),
+             detail=None if not bad else "`x knows y` streamed at 5 (own expiry 15) and derived from `y knows x` at 8 (expiry 18): the second evaluation stores 15 again")
